@@ -239,6 +239,29 @@ def bounded_first_frame(ctx, b):
                     sample={"writer": Wr.__name__, "spans": spans, "cue_within_the_first_microdvd_frame": Wr is MicroDVDWriter})
 
 
+def bounded_early_cues(ctx, b):
+    """cues that start sooner after time zero than their own text takes to transmit (SCC sends a caption ahead of its
+    start time): the document is still one its reader reads"""
+    pairs = [(SRTWriter, SRTReader), (WebVTTWriter, WebVTTReader), (DFXPWriter, DFXPReader), (SAMIWriter, SAMIReader),
+             (MicroDVDWriter, MicroDVDReader), (SCCWriter, SCCReader)]
+    long_text = "forty characters of text in this caption"
+    for spans in ([(0, 300000), (400000, 3 * 10 ** 6)], [(100000, 900000), (10 ** 6, 2 * 10 ** 6), (2100000, 4 * 10 ** 6)], [(500000, 4 * 10 ** 6)]):
+        cs = CaptionSet({"en-US": CaptionList([Caption(s_, e_, [T(long_text), CaptionNode.create_break(), T(long_text[:30])]) for s_, e_ in spans])})
+        for Wr, Rd in pairs:
+            def one(Wr=Wr, Rd=Rd, cs=cs, spans=spans):
+                doc = Wr().write(cs)
+                got = detect_format(doc)
+                if got is not Rd:
+                    return False, {"writer_output_detected_as": repr(got), "doc": doc[:200]}
+                try:
+                    back = Rd().read(doc)
+                except Exception as e:
+                    return False, {"writer": Wr.__name__, "its_reader_raises": repr(e)[:200], "doc": doc[:300]}
+                n = sum(len(back.get_captions(l)) for l in back.get_languages())
+                return n == len(spans), {"writer": Wr.__name__, "cues_read": n, "cues_written": len(spans), "doc": doc[:300]}
+            b.guard(("early", Wr.__name__, tuple(spans)), one, sample={"writer": Wr.__name__, "spans": spans})
+
+
 def run(ctx):
     P = ctx.prove
     ctx.ground("SUPPORTED_READERS/order", order_is_documented)
@@ -246,6 +269,9 @@ def run(ctx):
                 "format and read back with every cue", lambda b: bounded_long_documents(ctx, b))
     ctx.bounded("first_frame", "caption sets whose first cue lies within the first 40 ms, through the five text writers: "
                 "detected as the writer's format and read back", lambda b: bounded_first_frame(ctx, b))
+    ctx.bounded("early_cues", "caption sets of one to three long two-row cues that start within their own SCC transmission time "
+                "of zero, through the six writers: detected as the writer's format, read back by that reader with every cue",
+                lambda b: bounded_early_cues(ctx, b))
     ctx.frame("detection_has_no_memory", detection_has_no_memory)
     ctx.bounded("sequences", "every ordered pair (a document of each format or of none detected first, then one of 14 strings "
                 "that several readers or none accept): the second answer is the first accepting reader of the documented "
